@@ -89,6 +89,15 @@ def level1_one(sel):
         if inc.get(n) != ("1" if n in sel else "0"):
             out.append(("INCLUDE-macro-wrong/%s" % n, dict(selection=arg, macro="INCLUDE_" + n, got=inc.get(n))))
     table = re.findall(r"\{\s*\"([^\"]*)\",\s*\d+,\s*crypt_(\w+)_rn,", h)
+    rows = re.findall(r"\{\s*\"([^\"]*)\",\s*(\d+),\s*crypt_(\w+)_rn,\s*gensalt_(\w+)_rn,\s*(\d+),\s*(\d+)\s*\}", h)
+    NRB = {"yescrypt": 16, "gost_yescrypt": 16, "scrypt": 16, "bcrypt": 16, "bcrypt_y": 16, "bcrypt_a": 16, "bcrypt_x": 16, "sha512crypt": 15, "sha256crypt": 15,
+           "sha1crypt": 20, "sunmd5": 8, "md5crypt": 9, "nt": 1, "bsdicrypt": 3, "bigcrypt": 2, "descrypt": 2}
+    for pfx, plen, cn, gn, nrb, strong in rows:
+        if pfx != TAGS.get(cn) or int(plen) != len(pfx) or gn != cn or int(nrb) != NRB.get(cn) or int(strong) != (1 if cn in STRONG else 0):
+            out.append(("dispatch-table-row-wrong/%s" % cn, dict(selection=arg, row=[pfx, plen, cn, gn, nrb, strong],
+                                                              expected=[TAGS.get(cn), len(TAGS.get(cn, "")), cn, cn, NRB.get(cn), 1 if cn in STRONG else 0])))
+    if len(rows) != len(table):
+        out.append(("dispatch-table-rows-unparsed", dict(selection=arg, rows=len(rows), entries=len(table))))
     mtable, mdefault = model_headers(set(sel))
     if [t[1] for t in table] != mtable:
         out.append(("dispatch-table-order-wrong", dict(selection=arg, got=[t[1] for t in table], expected=mtable)))
